@@ -235,8 +235,9 @@ def parser_model(run):
     """Machine P (PlusCal): termination with fairness and no state constraint, ProgramOrErrors, PrefixRejected over every
     lexeme sequence of the family; every input is then parsed by the real parser."""
     # (the inputs are the initial states of the PlusCal machine, which TLC builds in one thread: 19^4 inputs of the small
-    # alphabet did not finish within 40 minutes, so the thorough tier goes wider - the full alphabet - rather than deeper)
-    plan = [("small", 3)] if run.tier == "quick" else [("small", 3), ("all", 3)]
+    # alphabet and 33^3 of the full one did not finish within 25 - 40 minutes, so the thorough tier adds the full alphabet
+    # at depth 2 to the quick tier's plan)
+    plan = [("small", 3)] if run.tier == "quick" else [("small", 3), ("all", 2)]
     sts = run.tlc_many([dict(module="MC_Parser", cfg=PARSER_CFG % (n, ls), name="MC_Parser_%s_%d" % (ls, n), timeout=6000, workers=8)
                         for ls, n in plan], parallel=2)
     for st in sts:
